@@ -1203,6 +1203,16 @@ def call_method(ex, node, st):
             return                # mutation of a temporary is unobservable
         ex.write_path(st, path[0], path[1], new)
 
+    if rty == TAny:
+        # a method of an opaque object (declared `Any` in the spec): no effect
+        # on the modelled state, returns an opaque value (assumption A5)
+        for a in node.args:
+            try: ex.ev(a, st)
+            except OutsideSubset: pass
+        if 'opaque call .%s()' % meth not in ex.notes:
+            ex.notes.append('opaque call .%s()' % meth)
+        return fresh(TAny, 'opaque')
+
     # contract on a record type's method
     if isinstance(rty, TRec):
         cs = ex.reg.find_method(rty.name, meth, ex.spec)
@@ -1266,6 +1276,16 @@ def call_method(ex, node, st):
             n = rty.len(recv.term)
             write(Val(rty, rty.mk(z3.Store(rty.arr(recv.term), n, e.term),
                                   n + 1)))
+            # python appends a reference: if the appended object is held by a
+            # plain local name, that name now denotes the new list cell, so
+            # later mutations through it are seen in the list (one alias is
+            # tracked; DESIGN 2.6)
+            from .symexec import Ref
+            a0 = node.args[0]
+            if isinstance(a0, ast.Name) and path is not None and \
+               ex.is_mutable(arg) and not isinstance(st.env.get(a0.id), Ref) \
+               and a0.id in st.env and not ex.specmode:
+                st.env[a0.id] = Ref(path[0], path[1] + (('i', n),))
             return NONE
         if meth == 'extend':
             arg = pos_args(ex, node, st)[0]
@@ -1334,6 +1354,15 @@ def call_method(ex, node, st):
             write(Val(rty, rty.mk(rty.val(recv.term),
                       z3.Store(rty.dom(recv.term), k.term, z3.BoolVal(False)))))
             return res
+        if meth == 'update' and len(node.args) == 1 and isinstance(node.args[0], ast.Dict):
+            cur = recv
+            for kn, vn in zip(node.args[0].keys, node.args[0].values):
+                k = coerce(ex.ev(kn, st), rty.k)
+                v = coerce(ex.ev(vn, st), rty.v)
+                cur = Val(rty, rty.mk(z3.Store(rty.val(cur.term), k.term, v.term),
+                                      z3.Store(rty.dom(cur.term), k.term, z3.BoolVal(True))))
+            write(cur)
+            return NONE
         if meth == 'setdefault':
             raise OutsideSubset('dict.setdefault')
         if meth == 'clear':
